@@ -4,7 +4,7 @@ CONSTANTS
   SHAPES <- Q_SHAPES
   RANKS = {1, 3}
   EPSEXP = {8, 4}
-  GUESS = {"none", "fresh", "big", "reused"}
+  GUESS = {"none", "fresh", "big", "reused", "sweep1", "sweep2"}
   SEEDS = {1, 2}
   BACKENDS = {"py"}
   PREC = {}
